@@ -113,6 +113,7 @@ type payload struct {
 	Kind     string    `json:"kind"` // "template" | "notself"
 	Template *Template `json:"template,omitempty"`
 	NotSelf  *NotSelf  `json:"notself,omitempty"`
+	Nest     *Nest     `json:"nest,omitempty"`
 	Source   string    `json:"source"` // echo
 }
 
@@ -1249,6 +1250,11 @@ func replayFile(t *testing.T, path string, known bool) (failMsg string) {
 			t.Fatalf("%s: no notself payload", path)
 		}
 		checkNotSelf(t, test, p.NotSelf)
+	case "nest":
+		if p.Nest == nil || len(p.Nest.Ops) == 0 || len(p.Nest.Ops) != len(p.Nest.Init) {
+			t.Fatalf("%s: no nest payload", path)
+		}
+		checkNest(t, test, p.Nest)
 	default:
 		t.Fatalf("unknown payload kind %q in %s", p.Kind, path)
 	}
